@@ -818,6 +818,17 @@ pub fn gen_c03(rng: &mut Rng, _run: u64, _thorough: bool) -> Trace {
             _ => bytes.extend(format!("\x1b[{};{}H", 1 + rng.below(h as u64), 1 + rng.below(w as u64)).into_bytes()),
         }
     }
+    // a resize request with extreme numbers first: the engine clamps it to 132x60, and every later clamp
+    // ("at most one screenful") is only as good as that one
+    let mut bound_w = w as u64;
+    let mut bound_h = h as u64;
+    if emu == "ansi" && rng.chance(1, 6) {
+        let hh = mag(rng, h as i64);
+        let ww = mag(rng, w as i64);
+        bytes.extend(format!("\x1b[8;{hh};{ww}t").into_bytes());
+        bound_w = bound_w.max(132);
+        bound_h = bound_h.max(60);
+    }
     let target: String;
     if emu != "ansi" && rng.chance(1, 2) {
         match emu {
@@ -950,7 +961,7 @@ pub fn gen_c03(rng: &mut Rng, _run: u64, _thorough: bool) -> Trace {
         }
     }
     let n = bytes.len() as u64;
-    let bound = c03_bound(n, w as u64, h as u64);
+    let bound = c03_bound(n, bound_w, bound_h);
     t.cfg.fuel = bound;
     t.cfg.decode_fuel = bound;
     t.labels.push(format!("target={target}"));
